@@ -255,8 +255,49 @@ class DateGrammar(Spec):
                 ("nothing-may-follow-the-date", z3.Implies(z3.And(z3.InRe(x, ascii_), z3.InRe(z3.Concat(x, sfx), L)), z3.InRe(x, SPEC)))]
 
 
+def timezone_check(rep, prop):
+    """parse_date / iso_utc_time_to_seconds mean UTC whatever the host's time zone (a cut-off date must not move with TZ):
+    bounded run-time contract in subprocesses started with TZ=UTC0, PST8PDT and JST-9"""
+    import os
+    import subprocess
+    import sys
+    prog = ("import calendar, json, sys\n"
+            "from allmydata.util import time_format\n"
+            "bad = []\n"
+            "for (y, mo, d) in [(1970, 1, 1), (1999, 12, 31), (2000, 2, 29), (2010, 3, 14), (2020, 1, 1), (2024, 11, 3), (2038, 1, 19)]:\n"
+            "    want = calendar.timegm((y, mo, d, 0, 0, 0))\n"
+            "    got = time_format.parse_date('%04d-%02d-%02d' % (y, mo, d))\n"
+            "    if got != want: bad.append(['parse_date', y, mo, d, got, want])\n"
+            "    got = time_format.iso_utc_time_to_seconds('%04d-%02d-%02dT12:34:56' % (y, mo, d))\n"
+            "    if got != want + 45296: bad.append(['iso_utc_time_to_seconds', y, mo, d, got, want + 45296])\n"
+            "print(json.dumps(bad))\n")
+    name = "TimeZone:dates-in-the-configuration-mean-UTC-on-every-host"
+    rep.obligations += 1
+    rep.bounded_obligations += 1
+    rep.bounds.append("time zone independence: 7 dates x 2 functions under TZ=UTC0, PST8PDT, JST-9 (native subprocesses)")
+    bad = []
+    for tz in ("UTC0", "PST8PDT", "JST-9"):
+        env = dict(os.environ, TZ=tz)
+        r = subprocess.run([sys.executable, "-c", prog], capture_output=True, text=True, timeout=120, env=env)
+        line = [ln for ln in r.stdout.splitlines() if ln.startswith("[")]
+        if not line:
+            rep.undecided.append({"spec": "TimeZone", "why": "subprocess produced no result: " + (r.stderr or "")[-300:]})
+            return
+        import json
+        bad += [[tz] + b for b in json.loads(line[-1])]
+        rep.paths += 14
+        rep.sym_paths += 14
+    if not bad:
+        rep.discharged += 1
+        rep.discharged_names.add(name)
+        return
+    rep.violations.append({"property": prop, "contract": "TimeZone", "obligation": name, "status": "runtime", "inputs": {"TZ": bad[0][0], "function": bad[0][1], "date": bad[0][2:5]},
+                           "native_outcome": "%d of 42 results differ from calendar.timegm; first: TZ=%s %s(%04d-%02d-%02d) = %r, UTC value %r" % tuple([len(bad)] + bad[0]), "confirmed_on_real_code": True})
+
+
 def extra_checks(rep, tier):
     """print-then-parse (bounded, run-time contract check on the real functions): abbreviate_space output parses back."""
+    timezone_check(rep, "C48")
     from allmydata.util import abbreviate
     from pyvc.runner import load_known_findings
     bad = None
